@@ -36,7 +36,12 @@ META = dict(
          "(GET / SET / INCRBY wrappers) through Eval, EvalSha and ScriptLoad with go-redis' reply conversion (int64, string, status text, "
          "redis.Nil for a nil reply, WRONGTYPE / not-an-integer / NOSCRIPT classes) and the server's script cache as model state (checked at "
          "the end with SCRIPT EXISTS); (vi) complete iterations of Scan / SScan / HScan (cursor 0 until cursor 0, the caller passing on the "
-         "cursor it was given, MATCH and COUNT dimensions; the reply is the set of everything returned). SetBit/GetBit/PFAdd/PFCount/Eval/SScan "
+         "cursor it was given, MATCH and COUNT dimensions; the reply is the set of everything returned); (vii) the argument shape of the variadic "
+         "(...any) methods LPush RPush SAdd SRem ZRem PFAdd Eval EvalSha: the elements as arguments of their own (none / one / several) or as ONE "
+         "[]string, []any, map[string]string or map[string]any argument, which go-redis spreads - the command's meaning does not depend on the "
+         "shape (field sh of the command; keys C12:<target>:<op>:err|reply:args-as-<shape>), a call without any element is Redis' arity error, "
+         "Eval / EvalSha also with trailing ARGV that the script does not read; same dimension in the wire tier. "
+         "SetBit/GetBit/PFAdd/PFCount/Eval/SScan "
          "also run through kv.Store on 1-3 shards. A fault model (ShardedDel) covers "
          "the multi-key delete with one of three shards down: every order of 1-3 keys spanning the shards; every named key "
          "whose shard answers must be removed and counted, an error reported iff a named key's shard is down, checked by "
@@ -63,7 +68,7 @@ META = dict(
          "affected command/state combinations are not offered to the replay): MiniredisKeepsEmptyDestination, "
          "MiniredisBitopKeepsDestinationTTL, MiniredisHllIsATypeOfItsOwn (string commands on a HyperLogLog key), "
          "MiniredisPfaddReportsKnownElementsAfterCount, MiniredisCachesOnlySuccessfulEval, RedisVersionsDifferOnInvertedNegativeRange, "
-         "MiniredisScanAndHScanAnswerInOneCall (SCAN/HSCAN always answer everything with cursor 0, so passing on a non-zero cursor is "
+         "MiniredisPfaddNeedsAnElement (PFADD without an element is not offered), MiniredisScanAndHScanAnswerInOneCall (SCAN/HSCAN always answer everything with cursor 0, so passing on a non-zero cursor is "
          "exercised through SSCAN only; the wire tier checks the cursor/MATCH/COUNT placement of all three). The wrapper has no ZScan. Only the "
          "emitted wire command is checked (no reply conversion / effect claimed) for geo, SPop, SRandMember (random replies), Ping; "
          "scripts other than the three fixed ones and Lua's array/table conversions are not covered; pipelines queue only classic commands; "
@@ -85,7 +90,10 @@ FINISH = dict(rule="histories = complete TLC enumeration (BFS over the history v
 
 BASE = dict(Keys='{"k1","k2"}', Mem='<<"a","b">>', R=40, MaxList=4, VS='{"a","1"}', SecS="{2}", NS="{2}",
             IdxS="{-1,0,1}", ScoreS="{-1,0,2}", PageS="{0,1}", SizeS="{0,1,2}", MaxAdv=1, KVOnly=False, PipeLens="{2,3}",
-            BitOffS="{0,7,9}", ByteIdxS="{-1,0,1}", HE='{"x","y"}', CountS="{1,2}")
+            BitOffS="{0,7,9}", ByteIdxS="{-1,0,1}", HE='{"x","y"}', CountS="{1,2}", ShapeS='{"flat"}', ZeroElems=False, PadS="{0}")
+# every argument shape of the variadic (...any) methods (spec/RedisKV.tla, "argument shapes"), calls without any element,
+# and Eval / EvalSha with a trailing ARGV element that the script does not read (several scalars / two-element slices and maps)
+ALLSH = dict(ShapeS='{"flat","strs","anys","smap","amap"}', ZeroElems=True, PadS="{0,1}")
 
 # the three fixed Lua scripts of family "script" (their meaning is spec/RedisKV.tla!ScriptStep)
 SCRIPTS = dict(sget="return redis.call('GET', KEYS[1])",
@@ -177,11 +185,19 @@ def run(ctx):
                  ("scr3", 3, dict(fams="script", Keys=one, VS='{"1"}')),
                  # complete iterations of Scan / SScan / HScan after set and hash commands
                  ("scan2", 2, dict(fams="scan,set,hash", Keys=one, VS='{"1"}')),
-                 ("ctxN", 2, dict(fams="bit,hll,script,scan", Keys=one, ctxfrom=2, VS='{"1"}', BitOffS="{7}", ByteIdxS="{0}", CountS="{1}"))]
+                 ("ctxN", 2, dict(fams="bit,hll,script,scan", Keys=one, ctxfrom=2, VS='{"1"}', BitOffS="{7}", ByteIdxS="{0}", CountS="{1}")),
+                 # argument shape of the variadic (...any) methods: nothing / one scalar / several scalars / ONE []string, []any
+                 # or single-entry map argument, per family (store-only universes: every history runs on all four targets)
+                 ("shpl2", 2, dict(ALLSH, fams="list", Keys=one, IdxS="{0}")),
+                 ("shps2", 2, dict(ALLSH, fams="set,hll,zset", Keys=one, ScoreS="{0}", IdxS="{0}", PageS="{0}", SizeS="{1}", NS="{2}", KVOnly=True)),
+                 # Eval and EvalSha on the wrapper; the histories without EvalSha / ScriptLoad also run on the stores
+                 ("shpe2", 2, dict(ALLSH, fams="script,str", Keys=one, VS='{"1"}'))]
         qkw = dict(mixkw, Keys='{"k1","k2"}', IdxS="{-2,1}", ScoreS="{-1,2}", SizeS="{1}")
-        sims = [("mix", 40, 12, qkw),
-                ("mixkv", 40, 12, dict(qkw, KVOnly=True)),
-                ("mixn", 40, 12, dict(NEWMIX, Keys='{"k1","k2"}'))]
+        # (the simulator's cost grows with the command universe: the long histories of the quick tier carry the slice shapes,
+        # the exhaustive shp* runs above and the thorough tier all of them)
+        sims = [("mix", 40, 12, dict(qkw, ShapeS='{"flat","anys"}', ZeroElems=True)),
+                ("mixkv", 40, 12, dict(qkw, KVOnly=True, ShapeS='{"flat","strs"}', ZeroElems=True)),
+                ("mixn", 40, 12, dict(NEWMIX, Keys='{"k1","k2"}', ShapeS='{"flat","strs","anys"}', ZeroElems=True, PadS="{0,1}"))]
     else:
         plans = [("str2", 2, dict(fams="str,key", VS='{"a","1","-2"}', SecS="{1,2}", NS="{-3,2}")),
                  ("str3", 3, dict(fams="str,key", Keys=one)),
@@ -211,13 +227,27 @@ def run(ctx):
                  ("scr3", 3, dict(fams="script", Keys=one, VS='{"a","1"}', NS="{-3,2}")),
                  ("scan2", 2, dict(fams="scan,set,hash,key", Mem='<<"a","b","c">>', CountS="{1,2,5}")),
                  ("scan3", 3, dict(fams="scan,set", Keys=one, Mem='<<"a","b","c">>')),
-                 ("ctxN", 2, dict(fams="bit,hll,script,scan", ctxfrom=2))]
-        sims = [("mix", 40, 150, dict(mixkw, IdxS="{-3,-1,0,1,2}", ScoreS="{-2,0,1,2}", MaxList=5)),
-                ("mixkv", 40, 150, dict(mixkw, IdxS="{-3,-1,0,1,2}", ScoreS="{-2,0,1,2}", MaxList=5, KVOnly=True)),
-                ("mix80", 80, 60, dict(mixkw)),
-                ("mixn", 40, 150, dict(NEWMIX, BitOffS="{0,7,9,15,22}", ByteIdxS="{-2,-1,0,1,2}", HE='{"x","y","z","u","v","w"}')),
-                ("mixnkv", 40, 150, dict(NEWMIX, KVOnly=True)),
-                ("mixn80", 80, 60, dict(NEWMIX))]
+                 ("ctxN", 2, dict(fams="bit,hll,script,scan", ctxfrom=2)),
+                 ("shpl2", 2, dict(ALLSH, fams="list,key", VS='{"a","1","-2"}', IdxS="{-1,0}")),
+                 ("shpl3", 3, dict(ALLSH, fams="list", Keys=one, VS='{"a"}', IdxS="{0}")),
+                 ("shps2", 2, dict(ALLSH, fams="set", Mem='<<"a","b","c">>')),
+                 ("shpskv3", 3, dict(ALLSH, fams="set", Keys=one, KVOnly=True)),
+                 ("shpz2", 2, dict(ALLSH, fams="zset", ScoreS="{0,2}", IdxS="{0}", PageS="{0}", SizeS="{1}", NS="{2}", KVOnly=True)),
+                 ("shph2", 2, dict(ALLSH, fams="hll,key", HE='{"x","y","z"}')),
+                 ("shphkv3", 3, dict(ALLSH, fams="hll", Keys=one, KVOnly=True)),
+                 ("shpe2", 2, dict(ALLSH, fams="script,str,key", VS='{"a","1"}', NS="{-3,2}")),
+                 ("shpekv3", 3, dict(ALLSH, fams="script", Keys=one, VS='{"1"}', KVOnly=True)),
+                 ("ctxS", 2, dict(ALLSH, fams="list,set,hll,script", Keys=one, ctxfrom=2, VS='{"1"}'))]
+        # (the simulator's cost grows with the command universe: every long run carries three of the five shapes, all runs
+        # together - and the exhaustive shp* runs - all of them)
+        sh = lambda shapes, pad="{0}": dict(ShapeS="{%s}" % ",".join('"%s"' % x for x in shapes.split(",")), ZeroElems=True, PadS=pad)
+        sims = [("mix", 40, 150, dict(mixkw, IdxS="{-3,-1,0,1,2}", ScoreS="{-2,0,1,2}", MaxList=5, **sh("flat,anys,smap"))),
+                ("mixkv", 40, 150, dict(mixkw, IdxS="{-3,-1,0,1,2}", ScoreS="{-2,0,1,2}", MaxList=5, KVOnly=True, **sh("flat,strs,amap"))),
+                ("mix80", 80, 60, dict(mixkw, **sh("flat,strs,anys"))),
+                ("mixn", 40, 150, dict(NEWMIX, BitOffS="{0,7,9,15,22}", ByteIdxS="{-2,-1,0,1,2}", HE='{"x","y","z","u","v","w"}',
+                                       **sh("flat,strs,anys", "{0,1}"))),
+                ("mixnkv", 40, 150, dict(NEWMIX, KVOnly=True, **sh("flat,anys,smap", "{0,1}"))),
+                ("mixn80", 80, 60, dict(NEWMIX, **sh("flat,strs,amap", "{0,1}")))]
     ctx.exhaustive = True
     # TLC runs (model checking of the model itself, generation) in parallel - each is start-up dominated -, the replays
     # one after the other in this thread (SHARDS processes each); the longest TLC runs first
@@ -283,12 +313,20 @@ def vacuity(ctx):
              "redis.get.bytes", "redis.getset.bytes", "redis.eval.bytes", "redis.incrby!notint",
              "redis.sscanall.multi-call", "kv3.sscanall.multi-call", "kv3.eval!nil",
              "outage.dropped-connections"]
+    # the argument-shape dimension: every variadic (...any) method in every shape on the wrapper and on every store
+    for t in ("redis", "kv1", "kv2", "kv3"):
+        for op in ("lpush", "rpush", "sadd", "srem", "zrem", "pfadd", "eval") + (("evalsha",) if t == "redis" else ()):
+            need += ["%s.%s.shape.%s" % (t, op, sh) for sh in ("flat", "strs", "anys", "smap", "amap")]
+            if op != "pfadd":       # without any element: no trailing argument, an empty slice
+                need += ["%s.%s.shape.%s.empty" % (t, op, sh) for sh in ("flat", "strs", "anys")]
+        need += ["%s.%s!arity" % (t, op) for op in ("lpush", "rpush", "sadd", "srem", "zrem")]
     missing = [n for n in need if tot.get(n, 0) == 0]
     if missing:
         raise core.Infra("vacuous run: never exercised: %s" % missing)
     ctx.notes["named_deviations"] = ["MiniredisKeepsEmptyDestination", "MiniredisBitopKeepsDestinationTTL", "MiniredisHllIsATypeOfItsOwn",
                                      "MiniredisPfaddReportsKnownElementsAfterCount", "MiniredisCachesOnlySuccessfulEval",
-                                     "RedisVersionsDifferOnInvertedNegativeRange", "MiniredisScanAndHScanAnswerInOneCall"]
+                                     "RedisVersionsDifferOnInvertedNegativeRange", "MiniredisScanAndHScanAnswerInOneCall",
+                                     "MiniredisPfaddNeedsAnElement"]
 
 
 def wire(ctx, binp):
